@@ -4,7 +4,13 @@
    body is classified by the trusted decoders (json.loads / bytes.decode); "cut" is a truncated
    form body, for which the handler may give a mapping or a malformed error (both runs are tried).
    ev: one event per get_media()/media access inside the responder, logged at its return:
-     [op, d, out: "val"|"dflt"|"err"|"exc", ek, status, same, eq, errsame, touched, nparse]
+     [op, d, cx, out: "val"|"dflt"|"err"|"exc", ek, status, same, eq, errsame, touched, nparse, psame, p]
+   cx: where the access happened ("plain" | "except" | "exceptself" | "mw" | "errh");
+   psame: what the application observes of the raised error - (type, title, description, __cause__ object and
+   its message, to_dict()) - equals the snapshot taken when the first error was raised; p: the harness' reading of
+   that observation as [type, title, desc, cause] in the vocabulary of MediaCache!ProjOf.
+   wirebody: "same" / "diff" - the error document the client got is / is not the rendering of the first error
+   (snapshot at the first raise); "na" when nothing propagated.
    same: the returned object IS the first returned object; eq: it equals the expected document
    (trusted decoder / the document that was serialised); touched: the body source was read during
    this access; nparse: cumulative number of calls of the handler's loads function.
@@ -18,23 +24,27 @@
      P:touch    the body stream was read again after the single parse
      P:reparse  the handler parsed more than once
      P:wire     the error reached the client with another status than 400 / 415
+     P:proj     a later access raised an error an application observes differently from the first one
+                (LaterAccessesObserveFirstError: type, title, description incl. the parser's message, cause)
+     P:wirebody the propagated error was rendered differently from the first error
+     D:projkind the first error is not what the handler documents (title / description / cause kind)
      P:errsame  the handler's own (non-media) exception was not re-raised as the same object
      D:errid    an equal media error but not the identical exception object                         *)
 EXTENDS MediaCache, Json, IOUtils
 
 Traces == JsonDeserialize(IOEnv.TRACE_FILE)
 IdHandler == [c \in {"json", "form", "none"} |-> c]
-AnyFraming == [s \in {"wsgi", "asgi"} |-> {"length", "chunked"}]
+AnyFraming == [s \in {"wsgi", "asgi"} |-> {"length", "chunked", "absent", "blank"}]
 
 VARIABLES tid, l, verdict, dnote
-tvars == <<tid, l, verdict, dnote, stack, framing, ctype, body, cache, consumed, parses, last>>
+tvars == <<tid, l, verdict, dnote, stack, framing, ctype, body, cache, consumed, parses, last, firstp>>
 T == Traces[tid]
 
 TInit == /\ tid \in 1..Len(Traces) /\ l = 1 /\ verdict = "ok" /\ dnote = "ok"
          /\ stack = Traces[tid].stack /\ framing = Traces[tid].framing /\ ctype = Traces[tid].handler
          /\ body \in (IF Traces[tid].body = "cut" THEN {"valid", "badenc"} ELSE {Traces[tid].body})
          /\ cache = Unset /\ consumed = FALSE /\ parses = 0
-         /\ last = Rec("init", FALSE, "none", "none", "none", FALSE, FALSE)
+         /\ last = InitRec /\ firstp = NoProj
 
 JudgeP(e, x, np, firstParse) ==
     IF e.out = "exc" THEN "P:exc"
@@ -46,28 +56,31 @@ JudgeP(e, x, np, firstParse) ==
     ELSE IF e.touched /\ ~firstParse THEN "P:touch"
     ELSE IF e.nparse > np THEN "P:reparse"
     ELSE IF e.out = "err" /\ x.ek = "custom" /\ ~e.errsame THEN "P:errsame"
+    ELSE IF e.out = "err" /\ x.ek # "unsupported" /\ ~e.psame THEN "P:proj"
     ELSE "ok"
 
-JudgeD(e, x) == IF e.out = "err" /\ x.ek \notin {"unsupported", "custom"} /\ ~e.errsame THEN "D:errid" ELSE "ok"
+JudgeD(e, x) == IF e.out = "err" /\ x.ek \notin {"unsupported", "custom"} /\ ~e.errsame THEN "D:errid"
+                ELSE IF e.out = "err" /\ x.ek \in {"notfound", "malformed"} /\ e.p # x.p THEN "D:projkind" ELSE "ok"
 
 Step ==
     /\ l >= 1 /\ l <= Len(T.ev) /\ verdict = "ok"
     /\ LET e == T.ev[l] IN
-         /\ Access(e.op, e.d)
+         /\ Access(e.op, e.d, e.cx)
          /\ verdict' = JudgeP(e, last', parses', parses' # parses)
          /\ dnote' = IF dnote # "ok" THEN dnote
                      ELSE LET d == JudgeD(e, last') IN IF d = "ok" THEN "ok" ELSE d \o "#" \o ToString(l)
     /\ l' = l + 1 /\ UNCHANGED tid
 
 Wire == IF T.wire = -1 \/ verdict # "ok" THEN verdict
-        ELSE IF last.out = "err" /\ T.wire # last.status THEN "P:wire" ELSE verdict
+        ELSE IF last.out = "err" /\ T.wire # last.status THEN "P:wire"
+        ELSE IF last.out = "err" /\ last.ek \in {"notfound", "malformed"} /\ T.wirebody = "diff" THEN "P:wirebody" ELSE verdict
 
 Done ==
     /\ l >= 1 /\ (l > Len(T.ev) \/ verdict # "ok")
     /\ PrintT(<<"VERDICT", tid, IF Wire = "ok" THEN dnote ELSE Wire, l - 1>>)
-    /\ l' = -1 /\ UNCHANGED <<tid, verdict, dnote, stack, framing, ctype, body, cache, consumed, parses, last>>
+    /\ l' = -1 /\ UNCHANGED <<tid, verdict, dnote, stack, framing, ctype, body, cache, consumed, parses, last, firstp>>
 
 TNext == Step \/ Done
 TSpec == TInit /\ [][TNext]_tvars
-Sound == AtMostOneParse /\ DefaultNotCached /\ SameObjectOrSameError
+Sound == AtMostOneParse /\ DefaultNotCached /\ SameObjectOrSameError /\ LaterAccessesObserveFirstError
 ============================================================================
